@@ -172,6 +172,20 @@ func canonJSON(b []byte) string {
 	return serial(n)
 }
 
+// c11Nested encodes its payload with the library from inside its own MarshalJSON.
+type c11Nested struct {
+	A  int
+	In any
+}
+
+func (n c11Nested) MarshalJSON() ([]byte, error) {
+	in, err := gojson.Marshal(n.In)
+	if err != nil {
+		return nil, err
+	}
+	return gojson.Marshal(map[string]any{"a": n.A, "in": stdjson.RawMessage(in)})
+}
+
 // c11Unm has the plain (context-free) UnmarshalJSON.
 type c11Unm struct{ got string }
 
@@ -299,8 +313,35 @@ func c11Pool(seed int64, idx int) []c11Call {
 			return buf.String() + "|" + errClassStr(err)
 		})
 	}
+	// a marshaler that encodes with the library itself: two pooled contexts are in use at once
+	nested := []any{c11Nested{A: 1, In: map[string]any{"k": []any{1.0, "x"}}}, []c11Nested{{A: 2}, {A: 3, In: "s"}}, map[string]c11Nested{"m": {A: 4, In: []any{nil}}}}
+	for i, x := range nested {
+		x := x
+		add(fmt.Sprintf("Marshal(nested-marshaler):%d", i), false, func(h *c11Handles) string { b, err := gojson.Marshal(x); return string(b) + "|" + errClassStr(err) })
+		add(fmt.Sprintf("MarshalIndent(nested-marshaler):%d", i), false, func(h *c11Handles) string {
+			b, err := gojson.MarshalIndent(x, "", " ")
+			return string(b) + "|" + errClassStr(err)
+		})
+	}
 	for _, v := range failing {
 		v := v
+		add("MarshalContext(failing):"+v.desc, true, func(h *c11Handles) string {
+			b, err := gojson.MarshalContext(context.Background(), v.x)
+			return string(b) + "|" + errClassStr(err)
+		})
+		add("MarshalWithOption(failing):"+v.desc, true, func(h *c11Handles) string {
+			b, err := gojson.MarshalWithOption(v.x, gojson.UnorderedMap())
+			return canonJSON(b) + "|" + errClassStr(err)
+		})
+		add("MarshalNoEscape(failing):"+v.desc, true, func(h *c11Handles) string {
+			b, err := gojson.MarshalNoEscape(v.x)
+			return string(b) + "|" + errClassStr(err)
+		})
+		add("Encoder(reused).EncodeContext(failing):"+v.desc, true, func(h *c11Handles) string {
+			h.encBuf.Reset()
+			err := h.enc.EncodeContext(context.Background(), v.x)
+			return h.encBuf.String() + "|" + errClassStr(err)
+		})
 		add("Marshal(failing):"+v.desc, true, func(h *c11Handles) string { b, err := gojson.Marshal(v.x); return string(b) + "|" + errClassStr(err) })
 		add("MarshalIndent(failing):"+v.desc, true, func(h *c11Handles) string {
 			b, err := gojson.MarshalIndent(v.x, "", " ")
